@@ -139,7 +139,14 @@ def run(ctx):
             case = gen_levels.hier_case(rng, share_p=rng.choice([0, 0.4]))
         else:
             case = gen_mol.ambiguous_case(rng)
-        suites.run_resolve_case(ctx, 'resolve', case, oracle=oracle)
+        steps = suites.run_resolve_case(ctx, 'resolve', case, oracle=oracle)
+        if r == 0 and i % 8 == 0 and steps and len(steps) == 1 and steps[0]['result'] == 'ok' and not case.get('virtual'):
+            # a base graph OBJECT resolved twice: a node that had a fragment the first time and is virtual the second time
+            # carries no fine nodes the second time (its stored fragment graph is rebuilt at every resolution)
+            from props import c11
+            c11.reused_base_graph(ctx, case, steps[0]['fine_graph'],
+                                  {'last_all_atom': case.get('all_atom', True), 'legacy': case.get('legacy', True)})
+            ctx.feature('reused-base-graph')
 
 
 def corpus_case(ctx, payload):
@@ -151,7 +158,15 @@ def corpus_case(ctx, payload):
 def replay(payload):
     import check
     ctx = check.Ctx(PROP, 'quick', 0)
-    suites.run_resolve_case(ctx, 'replay', payload['case'], oracle=oracle, compare=False)
+    case = dict(payload['case'])
+    if case.get('variant') == 'reused-base-graph':
+        from props import c11
+        case['s'] = case.pop('orig')
+        case.pop('variant')
+        st = suites.run_resolve_case(ctx, 'replay', case, oracle=None, compare=False)
+        c11.reused_base_graph(ctx, case, st[0]['fine_graph'], {'last_all_atom': case.get('all_atom', True), 'legacy': case.get('legacy', True)})
+    else:
+        suites.run_resolve_case(ctx, 'replay', case, oracle=oracle, compare=False)
     for c, what, _ in ctx.failures:
         print('FAILS:', what)
     print('input:', payload['case'].get('s'))
